@@ -60,6 +60,7 @@ def as_bytes(p):
 def run(ctx):
     from cincoconfig import Schema, ChallengeField
     from cincoconfig.fields import DigestValue
+    import os as _os
     res = Result()
     rng = ctx.rng
     reqs, pend = [], []
@@ -146,6 +147,51 @@ def run(ctx):
                     res.violate(None, "hand-written plaintext was not hashed on load", case)
                 reqs.append({"cmd": "challenge.topython", "alg": alg, "stored": enc_tree(p), "tape": [tp3.log[0].hex()] if tp3.log else []})
                 pend.append(("topython", case, {"salt": d3.salt.hex(), "digest": d3.digest.hex()} if isinstance(d3, DigestValue) else None))
+        # a plaintext written by hand into a DOCUMENT of every format (blanks at its edges, blank lines, tabs are part of the secret), and a
+        # stored digest for a field bound to a variable that is set but empty (no binding): both through the real formats
+        s_doc = Schema(env="CINCO_T_C09D")
+        s_doc.pw = ChallengeField(alg)
+        s_doc.auth.pin = ChallengeField(alg, env="CINCO_T_C09D_NAMED")
+        for var in ("CINCO_T_C09D_PW", "CINCO_T_C09D_NAMED", "CINCO_T_C09D_AUTH_PIN"):
+            _os.environ[var] = ""
+        try:
+            for secret in (" open sesame", "trail ", "  ", " \u2003wide\u2003", "a\n\nb", "tab\tin", "plain"):
+                for fmt in FORMATS:
+                    try:
+                        from cincoconfig.core import ConfigFormat as _CF
+                        doc = _CF.get(fmt).dumps(None, {"pw": secret, "auth": {"pin": secret}})
+                    except Exception:  # noqa
+                        continue
+                    if fmt == "xml" and ("\n" in secret or "\t" in secret):
+                        pass
+                    c5 = s_doc()
+                    case5 = {"stream": "hand-written-document", "alg": alg, "fmt": fmt, "secret": secret}
+                    res.case(("hand-doc", alg, fmt, secret), kind="hand-written-document:" + fmt)
+                    try:
+                        c5.loads(doc, fmt)
+                        ok5 = all(isinstance(d, DigestValue) and d.digest == hfun(d.salt + secret.encode()).digest() for d in (c5.pw, c5.auth.pin))
+                    except Exception as e:  # noqa
+                        ok5 = False
+                    if not ok5:
+                        res.violate("C09:hand-written-not-hashed", "a plaintext written by hand into a document is not hashed as written (or not hashed at all)", case5)
+            c6 = s_doc()
+            c6.pw = "stored-under-empty-variable"
+            c6.auth.pin = "1234"
+            for fmt in FORMATS:
+                f6 = s_doc()
+                res.case(("empty-variable", alg, fmt), kind="empty-variable-reload")
+                try:
+                    f6.loads(c6.dumps(fmt), fmt)
+                    same6 = isinstance(f6.pw, DigestValue) and f6.pw.salt == c6.pw.salt and f6.pw.digest == c6.pw.digest and \
+                        isinstance(f6.auth.pin, DigestValue) and f6.auth.pin.salt == c6.auth.pin.salt and f6.auth.pin.digest == c6.auth.pin.digest
+                except Exception:  # noqa
+                    same6 = False
+                if not same6:
+                    res.violate("C09:reload-differs:empty-variable", "salt/digest do not survive save+load for a field bound to a variable that is set but empty",
+                                {"stream": "empty-variable", "alg": alg, "fmt": fmt})
+        finally:
+            for var in ("CINCO_T_C09D_PW", "CINCO_T_C09D_NAMED", "CINCO_T_C09D_AUTH_PIN"):
+                _os.environ.pop(var, None)
         # explicit salts
         for sl in [size - 1, size, size + 5, 0]:
             salt = bytes(rng.getrandbits(8) for _ in range(sl))
@@ -159,7 +205,6 @@ def run(ctx):
             reqs.append({"cmd": "digest.create", "alg": alg, "plaintext": b"pw".hex(), "salt": salt.hex(), "tape": [x.hex() for x in tp.log] or ["00" * size]})
             pend.append(("create", {"stream": "explicit-salt", "alg": alg, "salt": salt.hex()}, got))
         # defaults
-        import os as _os
         for default, envmode in [("hunter2", None), (DigestValue.create("hunter2", hfun), None), ("hunter2", "named-unset"), ("hunter2", "derived-unset"),
                                  ("hunter2", "prefix-unset"), ("hunter2", "named-empty"), ("", None), ("", "named-unset")]:
             var = "CINCO_T_C09_PW"
